@@ -125,9 +125,17 @@ UNIT = {
                 'r is Err ==> r->Err_0.name@ == name@',
             ],
             'rewrites': ['iter-rposition-to-helper', 'drain-from-next-back-to-helper'],
+            'needs': ['stack . partition_point ('],
             'closures': {0: {'ret': 'b: bool', 'ensures': ['b == (vic.context_index < context_index)']},
                          1: {'ret': 'b: bool', 'ensures': ['b == (vic.variable.read_only_location is Some)']},
                          2: {'rewrite': 'option-map-to-match'}},
+            # alternative annotation set for a body that has no `partition_point` step (the code before the fix of
+            # finding F4 used the context index itself as the position): same contract, one closure fewer
+            'alt': [{
+                'needs': ['. rposition ('],
+                'closures': {0: {'ret': 'b: bool', 'ensures': ['b == (vic.variable.read_only_location is Some)']},
+                             1: {'rewrite': 'option-map-to-match'}},
+            }],
         }),
         (VAR, ['impl VariableSet', 'fn push_context_impl'], {'requires': [WF], 'ensures': [
             'final(self).wf()',
